@@ -331,7 +331,7 @@ func ruleReadLoopConnErrors(p *Prog, r *Out) {
 		return
 	}
 	r.fn("(*serverConn).checkFrameWithStream", "(*serverConn).readLoop")
-	even, ping, push := false, false, false
+	even, ping, push, settings, goaway := false, false, false, false, false
 	ast.Inspect(ck.Body, func(n ast.Node) bool {
 		switch x := n.(type) {
 		case *ast.IfStmt:
@@ -359,6 +359,12 @@ func ruleReadLoopConnErrors(p *Prog, r *Out) {
 							if v == 5 {
 								push = true
 							}
+							if v == 4 {
+								settings = true
+							}
+							if v == 7 {
+								goaway = true
+							}
 						}
 					}
 				}
@@ -369,6 +375,7 @@ func ruleReadLoopConnErrors(p *Prog, r *Out) {
 	pos := p.pos(ck.Pos())
 	r.check(even, "even stream id rejected", pos, "stream&1 == 0 -> GOAWAY(PROTOCOL_ERROR)", "a client frame on an even (server-initiated) stream id is no longer a connection error (RFC 7540 s5.1.1)")
 	r.check(ping, "PING with a stream id rejected", pos, "GOAWAY(PROTOCOL_ERROR)", "a PING frame carrying a stream id is no longer a connection error (RFC 7540 s6.7)")
+	r.check(settings && goaway, "SETTINGS or GOAWAY with a stream id rejected", pos, "GOAWAY(PROTOCOL_ERROR)", "a SETTINGS or GOAWAY frame that names a stream is no longer a connection error (RFC 7540 s6.5, s6.8): taken for a stream frame it is ignored, answered with STREAM_CLOSED or refused, depending on the stream it names")
 	r.check(push, "PUSH_PROMISE from a client rejected", pos, "GOAWAY(PROTOCOL_ERROR)", "a PUSH_PROMISE frame from a client is no longer a connection error (RFC 7540 s8.2)")
 	// call site: error -> writeError(nil, cerr), release, return
 	called := false
